@@ -155,6 +155,7 @@ func runC15(c *runCtx) {
 		panic("C15 needs the git-bug binary (VERIF_GITBUG)")
 	}
 	c15Trees(c)
+	c15Config(c)
 	c15PackedRefs(c, gb)
 	cleanupScratch()
 	N := c.pick(3, 16)
@@ -814,5 +815,115 @@ func c15Idents(c *runCtx, w *c15World) {
 			c.count("ident-lines")
 			_ = id
 		}
+	}
+}
+
+// c15Config: git-bug's way of removing configuration (goGitConfigWriter.RemoveAll, what wipe and the
+// bridges use) against its model (GitBugModel.Config.removeAll): which keys are left, on repositories
+// whose other sections are named like git-bug's.
+func c15Config(c *runCtx) {
+	type sub struct {
+		Name    string     `json:"name"`
+		Options [][]string `json:"options"`
+	}
+	type section struct {
+		Name    string     `json:"name"`
+		Options [][]string `json:"options"`
+		Subs    []sub      `json:"subs"`
+	}
+	r := c.rng.fork()
+	names := []string{"git-bug", "git-bug-prompt", "git-bugs", "gitbug", "foo", "bar"}
+	for rep := 0; rep < c.pick(40, 300); rep++ {
+		dir := scratch("c15cfg")
+		mustGit(dir, "init", "-q", dir)
+		var cfg []section
+		for _, n := range names {
+			if !r.chance(2, 3) {
+				continue
+			}
+			sec := section{Name: n, Options: [][]string{}, Subs: []sub{}}
+			for k := 0; k < r.intn(3); k++ {
+				o := pickOne(r, []string{"open", "user-identity", "enabled", "x"})
+				dup := false
+				for _, e := range sec.Options {
+					dup = dup || e[0] == o
+				}
+				if !dup {
+					sec.Options = append(sec.Options, []string{o, "v" + randHexId(r, 2)})
+				}
+			}
+			for k := 0; k < r.intn(3); k++ {
+				sn := pickOne(r, []string{"bridge.x", "webui", "Sub Section", "open"})
+				dup := false
+				for _, e := range sec.Subs {
+					dup = dup || e.Name == sn
+				}
+				if !dup {
+					sec.Subs = append(sec.Subs, sub{Name: sn, Options: [][]string{{"token", "t" + randHexId(r, 2)}}})
+				}
+			}
+			if len(sec.Options)+len(sec.Subs) == 0 {
+				continue
+			}
+			// (git writes a section's plain options and each subsection as separate blocks; options first)
+			for _, o := range sec.Options {
+				mustGit(dir, "config", n+"."+o[0], o[1])
+			}
+			for _, sb := range sec.Subs {
+				for _, o := range sb.Options {
+					mustGit(dir, "config", n+"."+sb.Name+"."+o[0], o[1])
+				}
+			}
+			cfg = append(cfg, sec)
+		}
+		prefix := pickOne(r, []string{"git-bug", "git-bug", "git-bug.bridge.x", "git-bug.webui", "git-bug.open", "git-bug.nosuch", "nosuch", "git-bugs", "foo.Sub Section"})
+		keysOf := func() []string {
+			out, _ := gitIn(dir, "config", "--local", "--list", "--name-only")
+			var ks []string
+			for _, k := range strings.Fields(strings.ReplaceAll(out, "Sub Section", "Sub\x00Section")) {
+				k = strings.ReplaceAll(k, "\x00", " ")
+				if !strings.HasPrefix(k, "core.") {
+					ks = append(ks, k)
+				}
+			}
+			sort.Strings(ks)
+			return ks
+		}
+		repo, err := openGoGit(dir)
+		if err != nil {
+			panic(err)
+		}
+		rmErr := repo.LocalConfig().RemoveAll(prefix)
+		repo.Close()
+		out := map[string]any{"err": rmErr != nil, "keys": keysOf()}
+		if rmErr != nil {
+			out["keys"] = nil
+		}
+		c.emit(map[string]any{"cmd": "config", "sections": cfg, "prefix": prefix}, out)
+		c.count(fmt.Sprintf("config-remove/%s/err=%v", prefix, rmErr != nil))
+		// the frame, on the real code: keys of sections with another name are all still there
+		if rmErr == nil {
+			left := map[string]bool{}
+			for _, k := range keysOf() {
+				left[k] = true
+			}
+			first := strings.SplitN(prefix, ".", 2)[0]
+			for _, sec := range cfg {
+				if sec.Name == first {
+					continue
+				}
+				for _, o := range sec.Options {
+					if !left[sec.Name+"."+o[0]] {
+						c.violation(c.nCases, "C15/host-disturbed", fmt.Sprintf("removing the configuration under %q also removed %s.%s", prefix, sec.Name, o[0]), nil)
+					}
+				}
+				for _, sb := range sec.Subs {
+					if !left[strings.ToLower(sec.Name)+"."+sb.Name+".token"] {
+						c.violation(c.nCases, "C15/host-disturbed", fmt.Sprintf("removing the configuration under %q also removed %s.%s.token", prefix, sec.Name, sb.Name), nil)
+					}
+				}
+			}
+		}
+		os.RemoveAll(dir)
 	}
 }
